@@ -291,16 +291,17 @@ pub fn run_server_model(cfg: &ScenCfg, out: &mut RunOut) {
         let deliver_at = kernel::now_ns();
         let mut pos = 0;
         for c in &cuts {
+            if pos > 0 && chance(1, 6) {
+                let mut fut = Box::pin(rig.handle.set_decode_level(decode_level(choose(36) as u8)));
+                let _ = kernel::block_on(fut.as_mut());
+                out.probe("command_mid_frame");
+            }
             if let Some((k, lvl)) = cfg.decode.change_at {
                 if k == action {
                     let mut fut = Box::pin(rig.handle.set_decode_level(decode_level(lvl)));
                     let _ = kernel::block_on(fut.as_mut());
                     out.probe("decode_change_injected");
                 }
-            } else if pos > 0 && chance(1, 6) {
-                let mut fut = Box::pin(rig.handle.set_decode_level(decode_level(choose(36) as u8)));
-                let _ = kernel::block_on(fut.as_mut());
-                out.probe("command_mid_frame");
             }
             action += 1;
             serial::line_write(PATH, &burst[pos..*c]);
